@@ -32,6 +32,21 @@ impl Rng {
     pub fn bool(&mut self) -> bool {
         self.next_u64() & 1 == 1
     }
+    /// a count (list length, repetition): usually uniform in lo..=hi, now and then a size beyond the
+    /// usual range at which fixed-capacity buffers, 8/16-bit counters and 'small' fast paths change
+    pub fn len(&mut self, lo: u64, hi: u64) -> usize {
+        if self.chance(1, 40) {
+            const B: &[u64] = &[7, 8, 9, 15, 16, 17, 31, 32, 33, 64, 65, 100, 128, 129, 255, 256, 257];
+            let b = *self.pick(B);
+            // the big ones less often
+            if b > 40 && !self.chance(1, 4) {
+                return (lo + self.below(hi - lo + 1)) as usize;
+            }
+            std::cmp::max(b, lo) as usize
+        } else {
+            (lo + self.below(hi - lo + 1)) as usize
+        }
+    }
     pub fn pick<'a, T>(&mut self, xs: &'a [T]) -> &'a T {
         &xs[self.usize(xs.len())]
     }
